@@ -155,6 +155,10 @@ def owned_keys(machine, slot):
         # which helper keys get written depends on the data the indicator sees: the solo reference run
         # must see the same (converted) candles as the member inside the Hexital
         spec = dict(spec, common=dict(spec.get("common") or {}, candlestick_type=ctype))
+    if (machine.cfg.get("hexital") or {}).get("timeframe_fill") and (spec.get("common") or {}).get("timeframe"):
+        # likewise for gap filling switched on at Hexital level: with inserted candles the member gets far enough
+        # to write helper keys that a run over the unfilled candles never reaches
+        spec = dict(spec, common=dict(spec.get("common") or {}, timeframe_fill=True))
     twin = build(spec, machine.delivered)
     twin.calculate()
     keys = set()
